@@ -143,7 +143,8 @@ type c18op struct {
 	op   string // append prepend insert set remove swap
 	i, j int
 	kind string
-	n    int // value number
+	n    int  // value number
+	gen  bool // through the generic <Op>Type(.., vocab.Type) entry point instead of the kind-specific one
 }
 
 type c18state struct {
@@ -217,12 +218,19 @@ func applyNF(p interface{}, o c18op) (ok bool, tok string, kind string) {
 		if !ok {
 			return false, ""
 		}
+		if o.gen && vt.Kind() == reflect.Interface && strings.HasSuffix(name, o.kind) {
+			if gm := v.MethodByName(strings.TrimSuffix(name, o.kind) + "Type"); gm.IsValid() {
+				m = gm // the same value through the generic entry point
+			}
+		}
 		var in []reflect.Value
 		for _, x := range pre {
 			in = append(in, reflect.ValueOf(x))
 		}
 		in = append(in, val)
-		m.Call(in)
+		if out := m.Call(in); len(out) == 1 && !out[0].IsNil() {
+			panic(fmt.Sprintf("%s refused a value of the property's range: %v", name, out[0].Interface()))
+		}
 		return true, tokenOf(val)
 	}
 	switch o.op {
@@ -321,7 +329,7 @@ func genOps(r *rng, kinds []string, length int, iriOnly bool) []c18op {
 		if !iriOnly && len(kinds) > 0 {
 			kind = kinds[r.intn(len(kinds))]
 		}
-		o := c18op{kind: kind, n: len(ops)*3 + r.intn(3)}
+		o := c18op{kind: kind, n: len(ops)*3 + r.intn(3), gen: r.chance(1, 3)}
 		switch c := r.intn(10); {
 		case c < 2 || n == 0:
 			o.op = "append"
@@ -346,6 +354,9 @@ func genOps(r *rng, kinds []string, length int, iriOnly bool) []c18op {
 }
 
 func opString(o c18op) string {
+	if o.gen {
+		return fmt.Sprintf("%s(%d,%d,%s through the generic Type entry point,%d)", o.op, o.i, o.j, o.kind, o.n)
+	}
 	return fmt.Sprintf("%s(%d,%d,%s,%d)", o.op, o.i, o.j, o.kind, o.n)
 }
 
@@ -354,7 +365,7 @@ func runC18() {
 	s := &Summary{Rule: "every generated non-functional property: all operation sequences up to length 3 over {append, prepend, insert i, set i, remove i, swap i j} (i,j<=2) on IRI values, random sequences up to length 40 over every kind the property admits; every functional property: all set/clear sequences up to length 4 over up to 5 kinds; each state projected to (Len, At kinds+values, forward, backward, Serialize) and compared with a plain list / single slot; non-trivial = contains a shifting operation (prepend/insert/remove/swap) followed by iteration, or a set after a set of another kind", Dist: map[string]interface{}{}}
 	seen := map[string]bool{}
 	mismatch := map[string]int{}
-	nNF, nF := 0, 0
+	nNF, nF, nGeneric := 0, 0, 0
 	var coqCases []string
 	type bad struct {
 		prop string
@@ -516,6 +527,23 @@ func runC18() {
 		for i := 0; i < nRand; i++ {
 			runSeq(pr, genOps(r, kinds, 5+r.intn(36), false), i < 3)
 		}
+		// the generic entry points (AppendType / PrependType / InsertType / SetType) at every position of a three-element list
+		for _, k := range kinds {
+			if m := reflect.ValueOf(pr.New()).MethodByName("Append" + k); !m.IsValid() || m.Type().In(0).Kind() != reflect.Interface {
+				continue
+			}
+			base := []c18op{{op: "append", kind: k, n: 1}, {op: "append", kind: k, n: 2, gen: true}, {op: "append", kind: k, n: 3}}
+			for i := 0; i <= 3; i++ {
+				if i < 3 {
+					runSeq(pr, append(append([]c18op{}, base...), c18op{op: "set", i: i, kind: k, n: 7, gen: true}), false)
+					runSeq(pr, append(append([]c18op{}, base...), c18op{op: "set", i: i, kind: k, n: 7, gen: true}, c18op{op: "remove", i: 0}), false)
+				}
+				runSeq(pr, append(append([]c18op{}, base...), c18op{op: "insert", i: i, kind: k, n: 8, gen: true}), false)
+			}
+			runSeq(pr, append(append([]c18op{}, base...), c18op{op: "prepend", kind: k, n: 9, gen: true}), false)
+			nGeneric++
+			break
+		}
 	}
 	// functional properties: set / clear histories
 	for _, pr := range propRows {
@@ -561,7 +589,14 @@ func runC18() {
 						okAll = false
 						break
 					}
-					m.Call([]reflect.Value{val})
+					if m.Type().In(0).Kind() == reflect.Interface && k%2 == 1 {
+						if gm := v.MethodByName("SetType"); gm.IsValid() {
+							m = gm // every other typed value goes through the generic entry point
+						}
+					}
+					if out := m.Call([]reflect.Value{val}); len(out) == 1 && !out[0].IsNil() {
+						report(pr.Name, nil, "slot-set-refused:"+strings.Join(seq, ","))
+					}
 					wantKind, wantTok = a, tokenOf(val)
 				}
 				if okAll {
@@ -623,6 +658,7 @@ func runC18() {
 	writeFile("observed.v", []byte(b.String()))
 	s.Dist["non_functional_properties"] = nNF
 	s.Dist["functional_properties"] = nF
+	s.Dist["properties_swept_through_generic_entry_points"] = nGeneric
 	s.Dist["mismatch_by_projection"] = mismatch
 	s.Dist["coq_judged_sequences"] = len(coqCases)
 	if len(coqCases) > 0 {
